@@ -20,7 +20,7 @@ EXPLANATION = (
     'lock region as the write; (c) status guards exist; (d) read-modify-write '
     'of generator counters is under a lock on every path from a worker entry '
     'point.  Necessary conditions for exactly-once; schedules are not explored.')
-FLOORS = {'C16.a': 6, 'C16.b': 2, 'C16.c': 1, 'C16.d': 1, 'C16.e': 2, 'C16.z': 2, 'C16.f': 1}
+FLOORS = {'C16.r': 3, 'C16.a': 6, 'C16.b': 2, 'C16.c': 1, 'C16.d': 1, 'C16.e': 2, 'C16.z': 2, 'C16.f': 1}
 FILES = ['pyglove/core/tuning/local_backend.py', 'pyglove/core/tuning/sample.py',
          'pyglove/core/tuning/protocols.py', 'pyglove/core/tuning/backend.py',
          'pyglove/core/geno/dna_generator.py', 'pyglove/ext/evolution/base.py']
@@ -474,6 +474,8 @@ def rule_f(ctx):
 
 def run(ctx):
   ctx.consult(*FILES)
+  from sa.rejections import REJECTIONS as _REJ
+  S.rejection_census_obligations(ctx, 'C16.r', _REJ['C16'], floor=3)
   discover_locks(ctx.index)
   ctx.note('locks discovered (names bound to threading.Lock/RLock): ' + ', '.join(sorted(LOCK_NAMES)))
   rule_a(ctx)
